@@ -46,9 +46,11 @@ CONSTANTS NI, NR, NC, NA,
           MaxCol,         \* bound: collections
           MaxRec,         \* bound: synchronous gauge Record calls
           MaxLen,         \* bound on Len(hist) for the all-behaviours BFS export (CONSTRAINT HistBound)
+          WitSet,         \* names of the rare conditions a witness run looks for (see WitProbe)
           Hist,           \* BOOLEAN: record the behaviour in `hist` (generation runs)
           Ties,           \* BOOLEAN: two samples may carry the same time (the assumption is Ties = FALSE)
-          Dev             \* set of deviation names (ideal behaviour: {})
+          Dev             \* set of deviation names (ideal behaviour: {}).  No deviation of the unchanged tree is
+                          \* known for C17, so no disjunct is guarded by it yet; it is the hook of CONVENTIONS section 2
 
 AS      == 1..NA
 
@@ -272,7 +274,7 @@ Init ==
   /\ lastrep = [i \in Instrs |-> [r \in Readers |-> [has |-> FALSE, m |-> Empty]]]
   /\ pushed = [i \in Instrs |-> FALSE]
   /\ clock = 0 /\ ncol = 0 /\ nrec = 0 /\ flags = {}
-  /\ \A k \in 11..20 : TLCSet(k, 0)                     \* vacuity registers (see VacProbe)
+  /\ \A k \in 11..40 : TLCSet(k, 0)                     \* registers of VacProbe / WitProbe
   /\ curreps = [c \in Cbs |-> Empty]
   /\ hist = IF Hist THEN <<[op |-> "Cfg", kinds |-> kinds, temps |-> temps, cbi |-> cbi, na |-> NA]>> ELSE <<>>
 
@@ -452,6 +454,15 @@ GenShape ==
   /\ (cr = 0 /\ cr' = 0 /\ reg' = reg /\ alive' = alive /\ nrec' = nrec) => F("rem_noop") \notin flags
 \* witness idiom: print one shortest behaviour in which the rare condition was seen, then stop
 Wit(f) == (F(f) \in flags /\ JustEnded) => (PrintT(<<"BEH", ToJson(hist)>>) /\ FALSE)
+\* several conditions in ONE run (one worker: BFS order, i.e. a shortest behaviour for each): print the
+\* first behaviour that shows each condition of WitSet, stop (WitDone violated) when all were printed
+WitNames == <<"collect_after_rem", "readd_invoked", "collect_after_destroy", "neg_delta", "zero_delta",
+              "delta_flush_unreported", "reappear", "interleaved", "first_after_other", "two_cb_one_instr",
+              "gauge_stale_cum", "sgauge_stale", "sg_overwrite", "fastpath", "rem_noop">>
+WitReg(f) == 20 + (CHOOSE k \in 1..Len(WitNames) : WitNames[k] = f)
+WitProbe == \A f \in WitSet : (F(f) \in flags /\ JustEnded /\ TLCGet(WitReg(f)) = 0) =>
+               (PrintT(<<"BEH", ToJson([wit |-> f, hist |-> hist])>>) /\ TLCSet(WitReg(f), 1))
+WitDone == \E f \in WitSet : TLCGet(WitReg(f)) = 0
 WitCollectAfterRem     == Wit("collect_after_rem")
 WitReaddInvoked        == Wit("readd_invoked")
 WitCollectAfterDestroy == Wit("collect_after_destroy")
